@@ -96,6 +96,8 @@ class AwaitCtl:
                 self.cancellable = prev
         if isinstance(aw, TaskAwait):
             return self.handle(I, aw.coro, node)
+        if isinstance(aw, SObj) and getattr(aw.cls, "__name__", "") == "gather_future":
+            aw = GatherAwait(aw.fields["aws"], aw.fields["kwargs"])
         if isinstance(aw, GatherAwait):
             # asyncio.gather: the awaitables run CONCURRENTLY.  The engine follows one legal schedule (one after the
             # other, in order) and records that they were concurrent: ("asyncio.gather", None, (n,), kwargs) -- a
